@@ -12,6 +12,18 @@ TB_A = ("Trusted: CPython operator dispatch on engine.forksym.Lin, z3 linear ari
         "Stubs: tqdm -> identity, stderr -> sink.")
 
 CHECKS = {
+    "C04": dict(
+        technique="bounded symbolic execution (affine costs without coherence restriction, z3 LIA) of all seven algorithms; structural validity oracle on every path",
+        text="All seven algorithms, both policies, binary inputs and (extended solvers) inputs with polytomies run on symbolic non-negative integer "
+             "costs with no coherence restriction; every cost-dependent path is visited (sloss = 0 faces included) and every solution returned on "
+             "every path is checked against the structural definition of a valid complete (super-)reconciliation with finite cost.",
+        design="5/C04", engine="forksym"),
+    "C05": dict(
+        technique="bounded symbolic execution (affine costs, z3 LIA): completeness of the 'all' result proven per path against the oracle's full solution set",
+        text="On every feasible cost ordering of thl, exh, base/ext spfs, base_uspfs, superdtl z3 proves that every oracle solution missing from the "
+             "'all' result is strictly dearer than the returned cost for all cost vectors of the path, that returned solutions are distinct, optimal "
+             "and equally priced, that 'any' returns exactly one member of the 'all' result, and that the result is empty only if the oracle set is.",
+        design="5/C05", engine="forksym"),
     "C02": dict(
         technique="bounded symbolic execution (five affine costs, z3 LIA) of sreconcile_extended_spfs / base_spfs vs. independent enumerator of mappings x root orders x labellings",
         text="For every structural input in the bound and EVERY non-negative integer cost vector in the coherent region (sloss = 0 included), on every "
